@@ -1,8 +1,12 @@
-"""TEMPORARY — the c08 agent's private C09 check (DelayQueue share only); replaced by the merged C09.py."""
+"""C09 = the array/linked blocking-queue share (C09a_part) + the DelayQueue share (C09b_part)."""
 from checklib.registry import generic, COMMON_NOTE
-from checklib.props.C09b_part import CORRS, SKEL, TEXT, NOTE
+from checklib.props import C09a_part as A
+from checklib.props import C09b_part as B
 
-CHECK = generic("C09", CORRS, skel=SKEL)
+CHECK = generic("C09", A.CORRS + B.CORRS, skel=A.SKEL + B.SKEL, thorough_extra=A.thorough_extra)
 
-MANIFEST = dict(text=TEXT, note=COMMON_NOTE + NOTE,
-                technique="Lean 4 invariant + enabledness proofs over a transition-system model, regenerated sync skeletons, timed concurrent histories")
+MANIFEST = dict(
+    text=A.TEXT + " " + B.TEXT,
+    note=COMMON_NOTE + " " + A.NOTE + B.NOTE,
+    technique="Lean 4 invariant/enabledness/variant proofs over the C07 and C08 transition systems + regenerated sync skeletons + stress runs with directed wake-up and cancellation scenarios",
+)
